@@ -222,7 +222,8 @@ pub fn run(a: &Args) {
         let lat0 = rng.uni(-65.0, 65.0);
         let lon0 = rng.uni(-180.0, 180.0);
         let mut acs: Vec<Ac> = Vec::new();
-        let base_addr = rng.below(1 << 24) as u32;
+        // one history in six is built around an edge of the 24-bit address space (000000 and ffffff are legal addresses)
+        let base_addr = if rng.chance(1.0 / 6.0) { *rng.pick(&[0u32, 0, 0xff_ffff, 0xff_fffe, 0x80_0000, 0x00_0fff]) } else { rng.below(1 << 24) as u32 };
         for k in 0..nac {
             // addresses: random, or neighbours differing in one bit / one nibble (a mis-keyed table would merge them)
             let addr = match rng.below(4) {
@@ -230,7 +231,7 @@ pub fn run(a: &Args) {
                 1 => (base_addr.wrapping_add(k as u32)) & 0xff_ffff,
                 _ => rng.below(1 << 24) as u32,
             };
-            if acs.iter().any(|x| x.addr == addr) || addr == 0 {
+            if acs.iter().any(|x| x.addr == addr) {
                 continue;
             }
             let surface = rng.chance(0.2);
